@@ -452,7 +452,7 @@ impl Prop for C17 {
             },
             Stage {
                 name: "huge",
-                kind: StageKind::Enumerate { scope: "2 fixed line texts with 70 000 distinct lines (token ids beyond 16 bits)".into(), exhaustive: true, gen: |_t, f| {
+                kind: StageKind::Enumerate { scope: "5 fixed line texts: 2 with 70 000 distinct lines (token ids beyond 16 bits), and per algorithm 1100 x 1100 unrelated distinct lines between a common head and tail".into(), exhaustive: true, gen: |_t, f| {
                     for c in huge_line_cases() {
                         if !f(c) {
                             return;
